@@ -565,9 +565,10 @@ func TestVerif_C23(t *testing.T) {
 		map[bool]string{false: "", true: ", and every two-kind 16-key set (j keys of one kind, 16-j of another, j=1..15) with every m"}[r.Thorough()] +
 		": builders must accept exactly 1<=m<=n, 1<n<=16, parse back to threshold and the sorted key set (independent reference order), " +
 		"give one script/address for all orderings; hand-encoded scripts with invalid m / n / claimed n are parsed and must be refused; GetProgramInfo on every byte string up to length L and on every single-byte mutation and truncation of valid scripts: " +
-		"error or a result with valid parameters that is a fixed point of build->parse; distinct = (operation, shape, outcome) classes")
+		"error or a result with valid parameters that is a fixed point of build->parse; held results: every sequence of 2 calls over an alphabet of calls (ProgramFromMultiPubKey / AddressFromMultiPubKeys with accepted and refused parameters, ProgramFromPubKey, GetProgramInfo of hand-encoded scripts) and of 3 calls over its core, " +
+		"and every (pattern key set n=2..16, m=1..n) script and a single-key script of every kind followed by every core call, in one process: every script and parse result returned is kept (the returned slice itself) and after every later call must still equal its copy, parse back to its keys and threshold and hash to its address; distinct = (operation, shape, outcome) classes")
 	maxLen := 3
-	r.Bound(fmt.Sprintf("n<=17, all m, permutations for n<=%d; 8 key kinds: same-kind sets n<=16, kind multisets n<=%d; byte strings<=%d", permLimit, kindN, maxLen))
+	r.Bound(fmt.Sprintf("n<=17, all m, permutations for n<=%d; 8 key kinds: same-kind sets n<=16, kind multisets n<=%d; byte strings<=%d; held results: call histories of length<=3 over %s calls", permLimit, kindN, maxLen, map[bool]string{true: "26 (length 3: 9 core)", false: "40"}[r.Quick()]))
 
 	var rc c23case
 	if r.ReplayCase(&rc) && len(rc.Hist) > 0 {
